@@ -60,11 +60,17 @@ Proof. reflexivity. Qed.
 Lemma head_preserved : forall (gp : list N) c r r' d t, gp ++ c :: r = d :: t -> exists t', gp ++ c :: r' = d :: t'.
 Proof. intros [|x gp] c r r' d t H; cbn in *; inversion H; subst; eauto. Qed.
 
-(* the automaton hands over the same position when whitespace is inserted anywhere after the first character of what it
+(* the position handed over is a `/*` that never closes (ANTLR's fallback: the `/` is a division) *)
+Definition starts_open (s : list N) : Prop := match s with c :: d :: _ => c = 47 /\ d = 42 | _ => False end.
+(* what may be inserted behind a handed-over position s1: text that starts with whitespace and, if s1 is such an
+   opener, is whitespace only (a comment in the inserted text would close it) *)
+Definition gap_for (s1 g : list N) : Prop := ws_head g /\ (wsne g \/ ~ starts_open s1).
+
+(* the automaton hands over the same position when such text is inserted anywhere after the first character of what it
    hands over *)
 Lemma skipm_stable : forall s m s1, skipm m s = Some s1 -> s1 <> [] ->
   exists gp, s = gp ++ s1 /\
-    forall g c r r', s1 = c :: r -> wsne g -> ins g r r' -> skipm m (gp ++ c :: r') = Some (c :: r').
+    forall g c r r', s1 = c :: r -> gap_for s1 g -> ins g r r' -> skipm m (gp ++ c :: r') = Some (c :: r').
 Proof.
   induction s as [|c0 s0 IH]; intros m s1 H Hne.
   - destruct m; cbn in H; inversion H; subst; contradiction.
@@ -72,7 +78,7 @@ Proof.
     assert (forall m', skipm m' s0 = Some s1 ->
               (forall t, skipm m (c0 :: t) = skipm m' t) ->
               exists gp, c0 :: s0 = gp ++ s1 /\
-                forall g c r r', s1 = c :: r -> wsne g -> ins g r r' -> skipm m (gp ++ c :: r') = Some (c :: r')) as Rec.
+                forall g c r r', s1 = c :: r -> gap_for s1 g -> ins g r r' -> skipm m (gp ++ c :: r') = Some (c :: r')) as Rec.
     { intros m' H' Hstep. destruct (IH m' s1 H' Hne) as (gp & E & K). exists (c0 :: gp). split; [cbn; f_equal; exact E|].
       intros g c r r' E1 Hg Hi. cbn [app]. rewrite Hstep. apply (K g c r r' E1 Hg Hi). }
     destruct m.
@@ -86,7 +92,7 @@ Proof.
       destruct s0 as [|d t0].
       { inversion H; subst. exists []. split; [reflexivity|]. intros g c r r' E1 Hg (a & b & Er & ->).
         injection E1 as Ec Er0. subst c r.
-        destruct a; [|discriminate]. destruct b; [|discriminate]. destruct (wsne_head g Hg) as (w & g' & -> & Hw').
+        destruct a; [|discriminate]. destruct b; [|discriminate]. destruct (proj1 Hg) as (w & g' & -> & Hw').
         cbn [app]. rewrite skipm_top_slash.
         replace (w =? 47) with false by (unfold is_ws in Hw'; lia).
         replace (w =? 42) with false by (unfold is_ws in Hw'; lia). reflexivity. }
@@ -101,16 +107,18 @@ Proof.
           cbn [app]. rewrite skipm_top_slash. rewrite Et, D47, D42. rewrite <- Et. rewrite (K g c r r' eq_refl Hg Hi). reflexivity.
         - inversion H; subst s1. exists []. split; [reflexivity|]. intros g c r r' E1 Hg (a & b & Er & ->).
           injection E1 as Ec Er0. subst c r.
-          destruct (wsne_head g Hg) as (w & g' & Eg & Hw').
+          destruct (proj1 Hg) as (w & g' & Eg & Hw').
           destruct a as [|x a].
           + subst g. cbn [app]. rewrite skipm_top_slash. replace (w =? 47) with false by (unfold is_ws in Hw'; lia).
             replace (w =? 42) with false by (unfold is_ws in Hw'; lia). reflexivity.
           + cbn [app] in Er. injection Er as Ex Et0. subst x t0. cbn [app]. rewrite skipm_top_slash. rewrite D47, D42.
             cbn [skipm] in HO. cbn [skipm].
-            rewrite (block_unclosed_ins a b g MBlock Hg (or_introl eq_refl) HO). reflexivity. }
+            destruct (proj2 Hg) as [Hws | Hno].
+            * rewrite (block_unclosed_ins a b g MBlock Hws (or_introl eq_refl) HO). reflexivity.
+            * exfalso. apply Hno. cbn. split; [reflexivity|]. apply N.eqb_eq. exact D42. }
       inversion H; subst s1. exists []. split; [reflexivity|]. intros g c r r' E1 Hg (a & b & Er & ->).
       injection E1 as Ec Er0. subst c r.
-      destruct (wsne_head g Hg) as (w & g' & Eg & Hw').
+      destruct (proj1 Hg) as (w & g' & Eg & Hw').
       destruct a as [|x a].
       * subst g. cbn [app]. rewrite skipm_top_slash. replace (w =? 47) with false by (unfold is_ws in Hw'; lia).
         replace (w =? 42) with false by (unfold is_ws in Hw'; lia). reflexivity.
@@ -134,31 +142,39 @@ Proof.
 Qed.
 
 (* ---- token boundaries ----------------------------------------------------------------------------------------------- *)
-(* reach s b: b is s itself or what is left of s right after one of its default-channel tokens *)
-Inductive reach : list N -> list N -> Prop :=
-| reach_here : forall s, reach s s
-| reach_tok : forall s c r0 l r b,
-    skipm MTop s = Some (c :: r0) -> scan (c :: r0) = Some (l, r) -> reach r b -> reach s b.
+(* reachP ok s b: b is s itself or what is left of s right after one of its default-channel tokens; every position
+   the automaton handed over on the way satisfies ok *)
+Inductive reachP (ok : list N -> Prop) : list N -> list N -> Prop :=
+| reachP_here : forall s, reachP ok s s
+| reachP_tok : forall s c r0 l r b,
+    skipm MTop s = Some (c :: r0) -> ok (c :: r0) -> scan (c :: r0) = Some (l, r) -> reachP ok r b -> reachP ok s b.
+Definition reach : list N -> list N -> Prop := reachP (fun _ => True).
+(* ... and no token before the boundary is the `/` of a `/*` that never closes *)
+Definition reach_closed : list N -> list N -> Prop := reachP (fun s1 => ~ starts_open s1).
 
-Lemma reach_suffix : forall s b, reach s b -> exists pre, s = pre ++ b.
+Lemma reachP_suffix : forall ok s b, reachP ok s b -> exists pre, s = pre ++ b.
 Proof.
-  induction 1 as [s | s c r0 l r b Hk Hs _ (x & Ex)].
+  induction 1 as [s | s c r0 l r b Hk _ Hs _ (x & Ex)].
   - exists []. reflexivity.
   - destruct (skipm_stable s MTop (c :: r0) Hk ltac:(discriminate)) as (gp & E & _).
     destruct (scan_stable _ _ _ Hs) as (E2 & _ & _).
     exists (gp ++ l ++ x). rewrite E, E2, Ex. rewrite <- !app_assoc. reflexivity.
 Qed.
 
-Theorem lex_insert_ws : forall s b, reach s b -> forall pre g f, s = pre ++ b -> wsne g ->
+(* a gap: text that starts with whitespace and that the hidden-channel automaton skips whatever follows *)
+Definition gap_ok (g : list N) : Prop := ws_head g /\ forall t, skipm MTop (g ++ t) = skipm MTop t.
+
+Theorem lex_insert_general : forall ok s b, reachP ok s b -> forall pre g f, s = pre ++ b -> gap_ok g ->
+  (forall s1, ok s1 -> wsne g \/ ~ starts_open s1) ->
   lex f (pre ++ g ++ b) = lex f (pre ++ b).
 Proof.
-  induction 1 as [s | s c r0 l r b Hk Hs Hr IH]; intros pre g f E Hg.
+  induction 1 as [s | s c r0 l r b Hk Hok Hs Hr IH]; intros pre g f E Hg Hall.
   - assert (pre = []) as ->.
     { apply (f_equal (@length N)) in E. rewrite app_length in E. destruct pre; [reflexivity|cbn in E; lia]. }
-    cbn [app]. apply lex_leading_ws. exact (proj2 Hg).
+    cbn [app]. destruct f as [|f]; [reflexivity|]. cbn [lex]. rewrite (proj2 Hg s). reflexivity.
   - destruct (skipm_stable s MTop (c :: r0) Hk ltac:(discriminate)) as (gp & Es & K).
     destruct (scan_stable _ _ _ Hs) as (E2 & Hl & L).
-    destruct (reach_suffix _ _ Hr) as (x & Ex).
+    destruct (reachP_suffix _ _ _ Hr) as (x & Ex).
     destruct l as [|c' l']; [contradiction|]. cbn [app] in E2. inversion E2; subst c'.
     assert (pre = gp ++ (c :: l') ++ x) as ->.
     { apply (app_inv_tail b). rewrite <- E, Es. rewrite H1, Ex. norm_app. reflexivity. }
@@ -167,12 +183,60 @@ Proof.
     assert (ins g r0 (l' ++ x ++ g ++ b)) as Hi0.
     { exists (l' ++ x), b. rewrite H1, Ex. split; norm_app; reflexivity. }
     assert (ins g r (x ++ g ++ b)) as Hi. { exists x, b. split; [exact Ex|reflexivity]. }
+    assert (gap_for (c :: r0) g) as Hgf. { split; [exact (proj1 Hg)|exact (Hall _ Hok)]. }
     replace ((gp ++ (c :: l') ++ x) ++ g ++ b) with (gp ++ c :: (l' ++ x ++ g ++ b))
       by (norm_app; reflexivity).
-    cbn [lex]. rewrite (K g c r0 _ eq_refl Hg Hi0). rewrite Hk.
+    cbn [lex]. rewrite (K g c r0 _ eq_refl Hgf Hi0). rewrite Hk.
     change (c :: l' ++ x ++ g ++ b) with ((c :: l') ++ x ++ g ++ b).
-    rewrite (L _ (sim_of_ins g r _ Hg Hi)). rewrite Hs.
-    rewrite (IH x g f Ex Hg). rewrite <- Ex. reflexivity.
+    rewrite (L _ (sim_of_ins_head g r _ (proj1 Hg) Hi)). rewrite Hs.
+    rewrite (IH x g f Ex Hg Hall). rewrite <- Ex. reflexivity.
+Qed.
+
+Lemma gap_ok_ws : forall g, wsne g -> gap_ok g.
+Proof.
+  intros g Hg. split.
+  - destruct (wsne_head g Hg) as (w & g' & E & Hw). exists w, g'. auto.
+  - intros t. apply skipm_ws_prefix. exact (proj2 Hg).
+Qed.
+Lemma gap_ok_app : forall g1 g2, gap_ok g1 -> gap_ok g2 -> gap_ok (g1 ++ g2).
+Proof.
+  intros g1 g2 [(w & g' & -> & Hw) H1] [_ H2]. split.
+  - exists w, (g' ++ g2). split; [reflexivity|exact Hw].
+  - intros t. rewrite <- app_assoc, H1, H2. reflexivity.
+Qed.
+(* whitespace, then a line comment with its newline *)
+Lemma skipm_one_ws : forall w t, is_ws w = true -> skipm MTop (w :: t) = skipm MTop t.
+Proof. intros w t Hw. apply (skipm_ws_prefix [w] t). unfold wsall. cbn [forallb]. rewrite Hw. reflexivity. Qed.
+Lemma gap_ok_line_comment : forall w body nl, is_ws w = true ->
+  forallb (fun c => negb (is_nl c)) body = true -> is_nl nl = true -> gap_ok (w :: 47 :: 47 :: body ++ [nl]).
+Proof.
+  intros w body nl Hw Hb Hn. split; [exists w, (47 :: 47 :: body ++ [nl]); auto|].
+  intros t. cbn [app]. rewrite (skipm_one_ws w _ Hw). rewrite <- app_assoc. cbn [app]. apply skipm_line_comment; assumption.
+Qed.
+(* whitespace, then a block comment whose body the automaton leaves at its closing `*/` *)
+Definition closes (body : list N) : Prop := forall t, skipm MBlock (body ++ 42 :: 47 :: t) = skipm MTop t.
+Lemma gap_ok_block_comment : forall w body, is_ws w = true -> closes body -> gap_ok (w :: 47 :: 42 :: body ++ [42; 47]).
+Proof.
+  intros w body Hw Hc. split; [exists w, (47 :: 42 :: body ++ [42; 47]); auto|].
+  intros t. cbn [app]. rewrite (skipm_one_ws w _ Hw). rewrite skipm_top_slash.
+  change (42 =? 47) with false. change (42 =? 42) with true. cbv iota.
+  change (skipm MOpen (42 :: (body ++ [42; 47]) ++ t)) with (skipm MBlock ((body ++ [42; 47]) ++ t)).
+  rewrite <- app_assoc. cbn [app]. rewrite (Hc t).
+  destruct (skipm MTop t) eqn:E; [reflexivity|]. exfalso. exact (proj1 (skipm_top_line_some t) E).
+Qed.
+Example closes_example : closes [32; 99; 42; 32; 47; 32] /\ closes [] /\ closes [10; 47; 47; 32; 39].
+Proof. repeat split; intros t; reflexivity. Qed.
+
+(* the two instances *)
+Theorem lex_insert_ws : forall s b, reach s b -> forall pre g f, s = pre ++ b -> wsne g ->
+  lex f (pre ++ g ++ b) = lex f (pre ++ b).
+Proof.
+  intros s b H pre g f E Hg. apply (lex_insert_general _ s b H pre g f E (gap_ok_ws g Hg)). intros s1 _. left. exact Hg.
+Qed.
+Theorem lex_insert_gap : forall s b, reach_closed s b -> forall pre g f, s = pre ++ b -> gap_ok g ->
+  lex f (pre ++ g ++ b) = lex f (pre ++ b).
+Proof.
+  intros s b H pre g f E Hg. apply (lex_insert_general _ s b H pre g f E Hg). intros s1 Hs1. right. exact Hs1.
 Qed.
 
 (* non-vacuity: in `1+2.5<=x` the text `2.5<=x` starts right after a token (the `+`), and so does `<=x` *)
@@ -180,7 +244,17 @@ Example reach_example :
   reach [49; 43; 50; 46; 53; 60; 61; 120] [50; 46; 53; 60; 61; 120] /\ reach [49; 43; 50; 46; 53; 60; 61; 120] [60; 61; 120].
 Proof.
   split.
-  - eapply reach_tok; [reflexivity|reflexivity|]. eapply reach_tok; [reflexivity|reflexivity|]. apply reach_here.
-  - eapply reach_tok; [reflexivity|reflexivity|]. eapply reach_tok; [reflexivity|reflexivity|].
-    eapply reach_tok; [reflexivity|reflexivity|]. apply reach_here.
+  - eapply reachP_tok; [reflexivity|exact I|reflexivity|]. eapply reachP_tok; [reflexivity|exact I|reflexivity|]. apply reachP_here.
+  - eapply reachP_tok; [reflexivity|exact I|reflexivity|]. eapply reachP_tok; [reflexivity|exact I|reflexivity|].
+    eapply reachP_tok; [reflexivity|exact I|reflexivity|]. apply reachP_here.
+Qed.
+(* `a/b`: right after the `/` (a division: nothing is open) a comment gap may go in, provided it starts with a blank *)
+Example reach_closed_example : reach_closed [97; 47; 98] [98] /\ gap_ok ([32; 47; 42; 32; 99; 32; 42; 47] ++ [10]).
+Proof.
+  split.
+  - eapply reachP_tok; [reflexivity|cbn; intros [E _]; discriminate|reflexivity|].
+    eapply reachP_tok; [reflexivity|unfold starts_open; intros [_ E]; discriminate E|reflexivity|]. apply reachP_here.
+  - apply gap_ok_app.
+    + apply (gap_ok_block_comment 32 [32; 99; 32]); [reflexivity|intros t; reflexivity].
+    + apply gap_ok_ws. split; [discriminate|reflexivity].
 Qed.
